@@ -859,7 +859,25 @@ func (g *gen) writeBuiltinNumType(b *buffer, recv *a.Expr, method t.ID, args []*
 		return nil
 
 	case t.IDHighBits:
-		// "recv.high_bits(n:etc)" in C is "((recv) >> (8*sizeof(recv) - (n)))".
+		// "recv.high_bits(n:etc)" in C is "((recv) >> (8*sizeof(recv) - (n)))",
+		// unless n might be zero. Shifting by the full width is undefined
+		// behavior in C. The high zero bits are zero.
+		nArg := args[0].AsArg().Value()
+		nIsPositiveConst := false
+		if cv := nArg.ConstValue(); cv != nil {
+			if cv.Sign() == 0 {
+				b.writes("0u")
+				return nil
+			}
+			nIsPositiveConst = cv.Sign() > 0
+		}
+		if !nIsPositiveConst {
+			b.writes("((")
+			if err := g.writeExpr(b, nArg, false, depth); err != nil {
+				return err
+			}
+			b.writes(") == 0u ? 0u : ")
+		}
 		b.writes("((")
 		if err := g.writeExpr(b, recv, false, depth); err != nil {
 			return err
@@ -871,10 +889,13 @@ func (g *gen) writeBuiltinNumType(b *buffer, recv *a.Expr, method t.ID, args []*
 			b.printf("%du", 8*sz)
 		}
 		b.writes(" - ")
-		if err := g.writeExpr(b, args[0].AsArg().Value(), false, depth); err != nil {
+		if err := g.writeExpr(b, nArg, false, depth); err != nil {
 			return err
 		}
 		b.writes("))")
+		if !nIsPositiveConst {
+			b.writes(")")
+		}
 		return nil
 
 	case t.IDMax:
